@@ -104,6 +104,10 @@ pub enum Expr {
     Index(Box<Expr>, Box<Expr>),
     /// `x[i] = e`
     IndexAssign(u32, Box<Expr>, Box<Expr>),
+    /// `x[i] op= e` — no constructor of its own in `CoreSyntax.lean`: `sexp` prints the guide's reading
+    /// `t = i; u = x[t]; u op= e; x[t] = u` over two model-only temporaries (index first, then the
+    /// element, then `e`; compound-assignment operator semantics; value = the new element)
+    IndexOpAssign(ArithOp, u32, Box<Expr>, Box<Expr>),
     Access(Box<Expr>, String),
     Size(Box<Expr>),
     Interp(Vec<Expr>),
@@ -159,6 +163,7 @@ impl Expr {
             Expr::RangeFull => "range-full",
             Expr::Index(..) => "index",
             Expr::IndexAssign(..) => "index-assign",
+            Expr::IndexOpAssign(..) => "index-op-assign",
             Expr::Access(..) => "access",
             Expr::Size(_) => "size",
             Expr::Interp(_) => "interp",
@@ -201,6 +206,7 @@ impl Expr {
             | Expr::Range(a, c, _)
             | Expr::Index(a, c)
             | Expr::IndexAssign(_, a, c)
+            | Expr::IndexOpAssign(_, _, a, c)
             | Expr::While(a, c)
             | Expr::Until(a, c)
             | Expr::For(_, a, c) => vec![a, c],
@@ -249,6 +255,7 @@ impl Expr {
             | Expr::Range(a, c, _)
             | Expr::Index(a, c)
             | Expr::IndexAssign(_, a, c)
+            | Expr::IndexOpAssign(_, _, a, c)
             | Expr::While(a, c)
             | Expr::Until(a, c)
             | Expr::For(_, a, c) => vec![a, c],
@@ -294,7 +301,7 @@ impl Expr {
     /// does the expression read variable `x` (as `Var`, or as the implicit read of `x op= e` / `x[i] = e`)?
     pub fn reads(&self, x: u32) -> bool {
         self.any(&|e| match e {
-            Expr::Var(y) | Expr::OpAssign(_, y, _) | Expr::IndexAssign(y, _, _) => *y == x,
+            Expr::Var(y) | Expr::OpAssign(_, y, _) | Expr::IndexAssign(y, _, _) | Expr::IndexOpAssign(_, y, _, _) => *y == x,
             _ => false,
         })
     }
@@ -307,7 +314,18 @@ impl Expr {
     }
     /// does the expression mutate the list held by `x` in place?
     pub fn index_assigns(&self, x: u32) -> bool {
-        self.any(&|e| matches!(e, Expr::IndexAssign(y, _, _) if *y == x))
+        self.any(&|e| matches!(e, Expr::IndexAssign(y, _, _) | Expr::IndexOpAssign(_, y, _, _) if *y == x))
+    }
+}
+
+/// variable numbers ≥ this only exist in the model request (never in Koto source)
+pub const MODEL_TEMP_BASE: u32 = 100_000;
+
+impl Expr {
+    /// nesting depth of `IndexOpAssign` constructs inside `self` (0 = none below)
+    pub fn any_depth_of_index_op_assign(&self) -> u32 {
+        let below = self.children().iter().map(|c| c.any_depth_of_index_op_assign()).max().unwrap_or(0);
+        if matches!(self, Expr::IndexOpAssign(..)) { below + 1 } else { below }
     }
 }
 
@@ -395,6 +413,18 @@ fn write_sexp(e: &Expr, out: &mut String) {
         Expr::RangeFull => out.push_str("(rfull)"),
         Expr::Index(a, i) => list_sexp("idx", &[a, i], out),
         Expr::IndexAssign(x, i, a) => list_sexp(&format!("idxset {}", x), &[i, a], out),
+        Expr::IndexOpAssign(op, x, i, a) => {
+            // model-only temporaries: unique per nesting depth of this construct
+            let depth = e.any_depth_of_index_op_assign();
+            let (t, u) = (MODEL_TEMP_BASE + 2 * depth, MODEL_TEMP_BASE + 2 * depth + 1);
+            let desugared = Expr::Block(vec![
+                Expr::Assign(t, i.clone()),
+                Expr::Assign(u, Box::new(Expr::Index(Box::new(Expr::Var(*x)), Box::new(Expr::Var(t))))),
+                Expr::OpAssign(*op, u, a.clone()),
+                Expr::IndexAssign(*x, Box::new(Expr::Var(t)), Box::new(Expr::Var(u))),
+            ]);
+            write_sexp(&desugared, out);
+        }
         Expr::Access(a, k) => {
             out.push_str("(acc ");
             write_sexp(a, out);
